@@ -18,7 +18,9 @@ macro_rules! h {
         #[kani::stub(std::alloc::alloc, alloc_stub)]
         #[kani::stub(alloc::alloc::dealloc_nonnull, dealloc_stub)]
         fn $name() {
-            $body
+            crate::ghost::arm();
+            $body;
+            kani::cover!(true, "end of harness reached");
         }
     };
 }
